@@ -780,7 +780,11 @@ class Dict(dict, base.Symbolic, pg_typing.CustomTyping):
           '\'popitem\' cannot be performed on a Dict with value spec.')
     if base.treats_as_sealed(self):
       raise base.WritePermissionError('Cannot pop item from a sealed Dict.')
-    return super().popitem()
+    key, value = super().popitem()
+    if isinstance(value, base.TopologyAware):
+      value.sym_setparent(None)
+      value.sym_setpath(utils.KeyPath())
+    return key, value
 
   def clear(self) -> None:
     """Removes all the keys in current dict."""
@@ -788,6 +792,10 @@ class Dict(dict, base.Symbolic, pg_typing.CustomTyping):
       raise base.WritePermissionError('Cannot clear a sealed Dict.')
     value_spec = self._value_spec
     self._value_spec = None
+    for value in dict.values(self):
+      if isinstance(value, base.TopologyAware):
+        value.sym_setparent(None)
+        value.sym_setpath(utils.KeyPath())
     super().clear()
 
     if value_spec:
